@@ -74,6 +74,7 @@ class Empt:
         self.summ = callee_summaries or {}
         self.returns: List[Any] = []
         self.closed_events = 0
+        self._loops: List[Dict[str, list]] = []
 
     # ---------------------------------------------------------------- expressions
     def ev(self, e: ast.AST, env: Dict[str, Any]):
@@ -351,11 +352,16 @@ class Empt:
                 seen_states[key] = st
                 body_env = dict(st)
                 self.assign(s.target, elem if elem is not None else "?", body_env, s)
+                self._loops.append({"continue": [], "break": []})
                 out = self.block(s.body, body_env)
-                if out is not None:
-                    out = {k: v for k, v in out.items()}
-                    exit_env = self.join_env(exit_env, out)
-                    work.append(out)
+                jumps = self._loops.pop()
+                # the end of the body and every `continue` lead back to the loop head (and, the iterable being finite, to the exit); `break` only to the exit
+                for o in ([out] if out is not None else []) + jumps["continue"]:
+                    o = {k: v for k, v in o.items()}
+                    exit_env = self.join_env(exit_env, o)
+                    work.append(o)
+                for o in jumps["break"]:
+                    exit_env = self.join_env(exit_env, dict(o))
             cur = exit_env
             # dedupe findings
             seen, uniq = set(), []
@@ -370,6 +376,9 @@ class Empt:
             return None
         if isinstance(s, ast.Pass):
             return env
+        if isinstance(s, (ast.Continue, ast.Break)) and self._loops:
+            self._loops[-1]["continue" if isinstance(s, ast.Continue) else "break"].append(env)
+            return None
         raise Unsupported("statement %s at line %d in emptiness analysis" % (type(s).__name__, s.lineno))
 
     def run(self, params: Dict[str, Any] = None):
